@@ -451,7 +451,20 @@ example : encSeqFields [.uint16, .string] exFields 2
     (by decide) (by decide) (by decide) (by decide) (by decide) (by decide) (by decide)).1
 def exSrc1 : Src := .struct [.arr exRepC, .val (.seq [.base .byte []]) (.rows [.tuple [.scalar (.num 7)]]), .arr exRepS]
 def exSrc2 : Src := .struct [.arr exRepR, .val (.seq [.base .byte []]) (.rows [.tuple [.scalar (.num 7)]]), .arr exRepU]
-example : exSrc1.view? = exSrc2.view? ∧ exSrc1.view?.isSome = true := ⟨by rfl, by rfl⟩
+def exSrcT : Tmpl := .struct [.base .int16 [2, 3], .seq [.base .byte []], .base .string [2]]
+def exSrcD : Data := .tuple [exRepD, .rows [.tuple [.scalar (.num 7)]], .array [.str [97, 98], .str []]]
+example : exSrc1.view? = some (exSrcT, exSrcD) ∧ exSrc2.view? = some (exSrcT, exSrcD) := ⟨by rfl, by rfl⟩
+example : encSrc exSrc1 = encSrc exSrc2 :=
+  (C05_representation_independent_dataset exSrc1 exSrc2 exSrcT exSrcD (by rfl) (by rfl) (by decide)).1
+example : encArr exRepR = .ok (XdrSpec.enc (.base .int16 [2, 3]) exRepD) :=
+  C05_representation_exact exRepR .int16 [2, 3] exRepD ⟨by decide, by decide, by rfl⟩ (by decide)
+example : ∃ v, readElem exRepR 4 = .num v ∧ wfVal .int16 (.num v) = true :=
+  C05_rep_narrow_in_range exRepR .int16 (by decide) (by decide) 4
+/-- a 130-character string: longer than the placeholder width `|S128` the DDS parser declares for strings; the
+    decoder's result has no width (`numpy.array([...], "S")` is sized by the data) -/
+example : decImpl (.base .string [1]) (XdrSpec.enc (.base .string [1]) (.array [.str (List.replicate 130 120)]) ++ [9])
+    = .ok (.array [.str (List.replicate 130 120)], [9]) :=
+  C05_decoder_total (.base .string [1]) (.array [.str (List.replicate 130 120)]) [9] (by decide +kernel)
 
 /-! ### the tie by translation: the *source text* of the size and padding arithmetic computes the model
 
